@@ -16,7 +16,7 @@ func init() {
 			if tier == "quick" {
 				return 4000
 			}
-			return 150000
+			return 450000
 		},
 		Rule:        "case = an ordered pair of persisted versions opened with LoadMast and NO node cache over a Load-recording store (C06's pair generator restricted to persisted versions; every 20th case is a large tree of 3000-20000 entries, bf 4 or 16, against a copy differing in 1-5 keys); the Load log is cleared, then DiffIter, DiffLinks and the StartDiff cursor each run to completion; distinct names loaded must be <= 2*D+2 with D = |reach(old) symmetric-difference reach(new)| from the independent walker, and exactly 0 when D = 0 (same root opened twice, or same contents rebuilt by another history); non-trivial = the bound actually constrains: 2D+2 < |reach(new)|/2; distinct by (old root, new root)",
 		Assumptions: []string{"reads are counted as distinct node names passed to Persist.Load; without a cache every node visit is a Load, so nothing is hidden"},
